@@ -334,7 +334,7 @@ func (p *VPeer) Send(id byte, payload []byte) error {
 	binary.BigEndian.PutUint32(b, uint32(1+len(payload)))
 	b = append(b, id)
 	b = append(b, payload...)
-	_ = p.Conn.SetWriteDeadline(time.Now().Add(2 * time.Second))
+	_ = p.Conn.SetWriteDeadline(time.Now().Add(30 * time.Second))
 	_, err := p.Conn.Write(b)
 	return err
 }
@@ -865,7 +865,7 @@ func (v *VLoop) AddPeer(fast, ext bool, source peersource.Source) (*VPeer, error
 	}()
 	// scripted peers use distinct loopback source addresses so the client's per-IP bookkeeping works
 	local := &net.TCPAddr{IP: net.IPv4(127, 0, 0, byte(2+len(v.Peers)))}
-	dl := net.Dialer{LocalAddr: local, Timeout: 2 * time.Second}
+	dl := net.Dialer{LocalAddr: local, Timeout: 20 * time.Second}
 	hc, err := dl.Dial("tcp", v.ln.Addr().String())
 	if err != nil {
 		return nil, err
